@@ -574,8 +574,9 @@ def meth_calls_in(path, names):
     return out
 
 
-def private_closure(M, roots):
-    """the given functions plus the private helpers of the same class that are called only from them (transitively)"""
+def private_closure(M, roots, same_class=True):
+    """the given functions plus the private helpers (of the same class; or, with same_class=False, also private module-level functions)
+    that are called only from them (transitively)"""
     out = set(roots)
     changed = True
     while changed:
@@ -584,7 +585,7 @@ def private_closure(M, roots):
             if f.qn in out or not f.name.startswith('_') or f.name.startswith('__'):
                 continue
             sites = M.call_sites(f.qn)
-            if sites and all(c.qn in out and c.cls is f.cls for c, n in sites):
+            if sites and all(c.qn in out and (c.cls is f.cls or (not same_class and f.cls is None)) for c, n in sites):
                 out.add(f.qn)
                 changed = True
     return out
